@@ -114,6 +114,9 @@ def main():
                 if k == 'getitem': out['res'] = dict(val=cv(a[op[1]]))
                 elif k == 'get': out['res'] = dict(val=cv(a.get(op[1], '<<DEFAULT>>')))
                 elif k == 'contains': out['res'] = dict(bool=bool(op[1] in a))
+                elif k == 'contains-hold':
+                    # a long-lived reader: it has answered, keeps its handle open and does nothing for a while
+                    out['res'] = dict(bool=bool(op[1] in a)); sched_gate('idle', job['root'])
                 elif k == 'len': out['res'] = dict(nat=len(a))
                 elif k == 'keys': out['res'] = dict(keys=sorted(kcanon(x) for x in a.keys()))
                 elif k == 'asdict': out['res'] = dict(items=canon_items(a.__asdict__()))
